@@ -38,7 +38,7 @@ From Batchie Require Import Model.Orchestrate Proofs.C19Base Proofs.C19Canon Pro
   Generated.SrcOrchInit Proofs.C19Source_ValidateInitial
   Generated.SrcOrchArgs Proofs.C19Source_GetArgs Proofs.C19Source_GetArgsMain
   Generated.SrcOrchPaths Proofs.C19Source_Paths Generated.SrcOrchCmdClosed Proofs.C19Source_CmdClosed
-  Proofs.C19Progress Proofs.C19Torn Proofs.C19Async
+  Proofs.C19Progress Proofs.C19Torn Proofs.C19TornResume Proofs.C19Async
   Model.NfFiles Generated.SrcNfOutputs Proofs.C19Nf.
 From Batchie Require Model.Cli Generated.SrcParser_select_next_plate.
 Import ListNotations.
@@ -313,31 +313,55 @@ Proof. vm_compute. repeat split; reflexivity. Qed.
 (* ---- source-translation links: the model IS the script ----
    src_* (Generated/SrcOrchestrate.v) are whole functions of /repo's nextflow/scripts/batchie.py, re-translated into Gallina
    by harness/py2gal.py on every run (configurations C19_* in harness/src_functions.py).  A path the script holds is the
-   model value it denotes (the output directory = the tree, a globbed iteration directory = (index, its plate directories),
-   a globbed plate directory = ((i, j), its files)); exceptions live in Orchestrate.sres (SNamed = a RuntimeError naming a
+   model value it denotes (the output directory = the tree with the set of job directories whose marker file is unreadable,
+   a globbed iteration directory = (index, its plate directories), a globbed plate directory = ((i, j), its files), the job
+   directory validate_job_dir_and_return_meta is given = the marker files its glob matches); exceptions live in Orchestrate.sres (SNamed = a RuntimeError naming a
    job directory, as XNamed).  Trusted: the translator and the primitives listed in harness/c19.py EXPLANATION. *)
 
 (* examine_output_dir_to_determine_current_iteration, the whole function: the two filtered and numerically sorted globs,
    the loop over iteration directories with its `continue` on one without plate directories, `current_plate_idx = 0`,
    the enumerate loop with the two raises and the directory they name, the three Optionals, the leaked loop variable
-   plate_dir that get_screen_from_job_output is applied to, the next-step arithmetic and both returns - equal to the
-   model's examine with fixed = true, for EVERY tree and batch size *)
+   plate_dir that get_screen_from_job_output is applied to, the next-step arithmetic and both returns - run on a WORLD
+   tf = (tree, set of job directories whose screen_metadata.json exists but cannot be read), where the translated
+   validate_job_dir_and_return_meta is handed the marker files its glob finds there (marker_dir_of: a torn one, the whole one
+   the tree records, none) - equal to the model's examine_t with BOTH repairs (tfix = true: an unreadable marker is a missing
+   marker; fixed = true), for EVERY tree, torn set and batch size.  up_meta: the metadata the translation hands on is the
+   loaded document (a dict with the key n_unobserved_plates) of the entry the model hands on; the answer is never TRaised
+   (C19_torn_repaired_never_raises) *)
+Theorem C19_model_is_source_examine_on_torn_worlds : forall (tf : tfs) (bs : Z),
+  src_examine tf bs = sres_of_tres (tres_map up_meta (examine_t true true bs tf)).
+Proof. exact src_examine_is_model_t. Qed.
+Print Assumptions C19_model_is_source_examine_on_torn_worlds.
+
+(* without torn markers: the model's examine with fixed = true *)
 Theorem C19_model_is_source_examine : forall (f : fs) (bs : Z),
-  src_examine f bs = sres_of_xres (examine true bs f).
+  src_examine (f, []) bs = sres_of_xres (xres_map up_meta (examine true bs f)).
 Proof. exact src_examine_is_model. Qed.
 Print Assumptions C19_model_is_source_examine.
 
-(* the translation determines the model parameter: the source is the repaired examine and no other *)
+(* the translation determines the model parameters: the source is the examine with both repairs and no other *)
 Theorem C19_model_is_source_examine_determines_fixed : forall fixed,
-  (forall f bs, src_examine f bs = sres_of_xres (examine fixed bs f)) <-> fixed = true.
+  (forall f bs, src_examine (f, []) bs = sres_of_xres (xres_map up_meta (examine fixed bs f))) <-> fixed = true.
 Proof. exact src_examine_determines_fixed. Qed.
 Print Assumptions C19_model_is_source_examine_determines_fixed.
 
-(* ... and differs from the unrepaired one on the tree of C19_resume_refuted_empty_iter's witness *)
+Theorem C19_model_is_source_examine_determines_repairs : forall tfix fixed,
+  (forall tf bs, src_examine tf bs = sres_of_tres (tres_map up_meta (examine_t tfix fixed bs tf))) <-> tfix = true /\ fixed = true.
+Proof. exact src_examine_determines_repairs. Qed.
+Print Assumptions C19_model_is_source_examine_determines_repairs.
+
+(* ... and differs from the unrepaired ones: on the tree of C19_resume_refuted_empty_iter's witness, and on the world the
+   witness of C19_resume_refuted_torn_marker leaves behind (where the script before the repair raised out of examine) *)
 Theorem C19_model_is_source_examine_not_unrepaired :
-  src_examine tree_empty_iter 2 <> sres_of_xres (examine false 2 tree_empty_iter).
+  src_examine (tree_empty_iter, []) 2 <> sres_of_xres (xres_map up_meta (examine false 2 tree_empty_iter)).
 Proof. exact src_examine_not_unrepaired. Qed.
 Print Assumptions C19_model_is_source_examine_not_unrepaired.
+
+Theorem C19_model_is_source_examine_not_raising_on_torn_marker :
+  src_examine world_torn_marker 1 <> sres_of_tres (tres_map up_meta (examine_t false true 1 world_torn_marker)) /\
+  src_examine world_torn_marker 1 = SNamed 1 (1, 0)%Z.
+Proof. split; [exact src_examine_not_raising_on_torn|vm_compute; reflexivity]. Qed.
+Print Assumptions C19_model_is_source_examine_not_raising_on_torn_marker.
 
 (* run_next_retrospective_step, the whole function, called with the operator's screen (SInput): it returns
    (return value, the file-system actions in program order ending in the launch) or raises - SNamed as examine did, or
@@ -346,30 +370,45 @@ Print Assumptions C19_model_is_source_examine_not_unrepaired.
    ending in AFail why = that exception after the three directory actions).  The translated function calls the translated
    examine; everything it reads from the output directory it reads from the tree as it is at that moment
    (tree_after f done), in particular the test screen and the thetas are looked for AFTER the job directory has been
-   cleared and re-created. *)
+   cleared and re-created.  Stated here on a world without torn markers (f, []); the general statement follows. *)
 Theorem C19_model_is_source_run_next_retrospective_step : forall (f : fs) (extra : eargs) (bs : Z),
-  src_run_next_retrospective_step f SInput extra bs = result_of_plan Retro bs (plan_of Retro true bs f).
+  src_run_next_retrospective_step (f, []) SInput extra bs = result_of_plan Retro bs (plan_of Retro true bs f).
 Proof. exact src_run_next_retro_is_model. Qed.
 Print Assumptions C19_model_is_source_run_next_retrospective_step.
 
 (* run_next_prospective_step, the whole function: the same, its return value is current_plate_idx < batch_size - 1 *)
 Theorem C19_model_is_source_run_next_prospective_step : forall (f : fs) (extra : eargs) (bs : Z),
-  src_run_next_prospective_step f SInput extra bs = result_of_plan Prosp bs (plan_of Prosp true bs f).
+  src_run_next_prospective_step (f, []) SInput extra bs = result_of_plan Prosp bs (plan_of Prosp true bs f).
 Proof. exact src_run_next_prosp_is_model. Qed.
 Print Assumptions C19_model_is_source_run_next_prospective_step.
+
+(* both on a world with torn markers (the two theorems above are the case of the empty torn set): step_result_t - the translated
+   examine decides whether a directory is named, a torn marker's like a missing marker's; if none is named the call is the
+   model's plan on the tree component, exactly how attempt_t is built.  meta["n_unobserved_plates"] (KeyError / TypeError in
+   jget_nup) never raises: the metadata examine hands on is a dict with that key *)
+Theorem C19_model_is_source_run_next_steps_on_torn_worlds : forall md (tf : tfs) (extra : eargs) (bs : Z),
+  src_run_next md tf extra bs = step_result_t true md true bs tf.
+Proof. exact src_run_next_is_model_t. Qed.
+Print Assumptions C19_model_is_source_run_next_steps_on_torn_worlds.
 
 (* the value handed back to main(): whenever the model's call_returns says that a call returned b (it was not interrupted,
    the script did not raise, the pipeline's exit status was 0), b is what the translated function returns *)
 Theorem C19_model_is_source_call_returns : forall md bs n f e extra b,
   call_returns md bs (snd (attempt md true bs n f e)) = Some b ->
-  exists acts, src_run_next md f extra bs = SOk (b, acts).
+  exists acts, src_run_next md (f, []) extra bs = SOk (b, acts).
 Proof. exact call_returns_is_source. Qed.
 Print Assumptions C19_model_is_source_call_returns.
+
+Theorem C19_model_is_source_call_returns_on_torn_worlds : forall md bs n tf te extra b,
+  call_returns md bs (snd (attempt_t true md true bs n tf te)) = Some b ->
+  exists acts, src_run_next md tf extra bs = SOk (b, acts).
+Proof. exact call_returns_is_source_t. Qed.
+Print Assumptions C19_model_is_source_call_returns_on_torn_worlds.
 
 (* non-vacuity: on the tree of the refutation witness (batch size 2, steps (0,0), (0,1) complete, iter_1 empty) the translated
    retrospective step clears and re-creates iter_1/plate_0 and launches it from the advanced screen of (0,1) *)
 Example C19_source_step_on_witness :
-  src_run_next_retrospective_step tree_empty_iter SInput [] 2
+  src_run_next_retrospective_step (tree_empty_iter, []) SInput [] 2
   = SOk (true, [ARmTree (1, 0); AMkIter 1; AMkPlate (1, 0);
                 ALaunch (1, 0) (LFirst (SFile (0, 1) KAdvanced) (SFile (0, 0) KTraining))])%Z.
 Proof. vm_compute. reflexivity. Qed.
@@ -384,10 +423,30 @@ Theorem C19_model_is_source_get_screen_from_job_output : forall p : plate_path,
 Proof. exact src_get_screen_is_model. Qed.
 Print Assumptions C19_model_is_source_get_screen_from_job_output.
 
-Theorem C19_model_is_source_validate_job_dir_and_return_meta : forall p : plate_path,
-  src_validate_job_dir_and_return_meta p = SOk (f_meta (snd p)).
+(* validate_job_dir_and_return_meta since the repair, for EVERY list of marker files its glob may match, whatever they hold (a
+   file is the JSON document in it, or None when json.load raises ValueError): None without a match; else the first match
+   decides - the document if it is a dict with the key n_unobserved_plates, None if the file is unreadable, if the document
+   is no dict, if the key is missing.  The try / except ValueError, the isinstance / `in` test with its short-circuit `or` (the
+   key test is an exception of the model on anything but a dict: never reached) and the returns come from the translation; in a world (tree, torn set) that is: None for a torn marker, else the metadata the tree records *)
+Theorem C19_model_is_source_validate_job_dir_and_return_meta : forall d : marker_dir,
+  src_validate_job_dir_and_return_meta d
+  = SOk (match d with Some (JDict (Some m)) :: _ => Some (JDict (Some m)) | _ => None end).
 Proof. exact src_validate_is_model. Qed.
 Print Assumptions C19_model_is_source_validate_job_dir_and_return_meta.
+
+Theorem C19_model_is_source_validate_job_dir_in_world : forall torn (p : plate_path),
+  src_validate_job_dir_and_return_meta (marker_dir_of torn p)
+  = SOk (if is_torn torn (fst p) then None else option_map whole_meta (f_meta (snd p))).
+Proof. exact src_validate_in_world. Qed.
+Print Assumptions C19_model_is_source_validate_job_dir_in_world.
+
+Example C19_source_validate_examples :
+  src_validate_job_dir_and_return_meta [] = SOk None /\
+  src_validate_job_dir_and_return_meta [None] = SOk None /\                              (* torn: json.load raises *)
+  src_validate_job_dir_and_return_meta [Some JOther] = SOk None /\                       (* a JSON list, number, null *)
+  src_validate_job_dir_and_return_meta [Some (JDict None)] = SOk None /\                 (* a dict without the key *)
+  src_validate_job_dir_and_return_meta [Some (JDict (Some 3%Z)); None] = SOk (Some (JDict (Some 3%Z))).
+Proof. repeat split; reflexivity. Qed.
 
 (* it globs for training.screen.h5 (as the model's LFirst command says) *)
 Theorem C19_model_is_source_get_test_screen_from_job_output : forall (f : fs) (s : step),
@@ -865,10 +924,13 @@ Example C19_retro_progress_after_crash :
       (snd (script_run Retro true 2 4 f [full; full; full; full])) = [1; 2; 2; 2].
 Proof. vm_compute. split; reflexivity. Qed.
 
-(* ---- torn completion markers: a published file does NOT appear atomically (Model/Orchestrate.v, last section) ----
-   script_run_t tfix ...  the run on trees (tree, set of steps whose screen_metadata.json exists but cannot be read) along
-   entries that may say "the interruption comes while the last file is being published"; tfix = false is the script as it is
-   (json.load raises out of examine), tfix = true the repair (an unreadable marker counts as no marker). *)
+(* ---- torn completion markers: a published file does NOT appear atomically (Model/Orchestrate.v, section "torn completion
+   markers") ----
+   script_run_t tfix ...  the run on worlds (tree, set of steps whose screen_metadata.json exists but cannot be read) along
+   entries that may say "the interruption comes while the last file is being published".  tfix = true is the script of /repo
+   (an unreadable marker counts as no marker: validate_job_dir_and_return_meta catches json.load's ValueError) - PROVED from
+   its translation: C19_model_is_source_examine_determines_repairs; tfix = false is the script before that repair (json.load's
+   exception escapes from examine), kept for the refutation witness. *)
 
 (* conservative extension: no torn marker and no tearing entry = the model above *)
 Theorem C19_torn_model_conservative : forall tfix md fixed bs n sched f,
@@ -877,7 +939,115 @@ Theorem C19_torn_model_conservative : forall tfix md fixed bs n sched f,
 Proof. exact script_run_t_conservative. Qed.
 Print Assumptions C19_torn_model_conservative.
 
-(* on a well-formed torn tree the script today raises (JSONDecodeError, names nothing) EXACTLY when the first problem examine
+(* THE PROPERTY on worlds with torn markers, for the script as it is (tfix = true), at full strength: for EVERY schedule -
+   any number of interruptions, at any event of any call, each possibly DURING the publication of a file - batch size, number
+   of plates and mode: the completed steps, with their launch inputs and recorded selections, are exactly the first k steps of
+   the uninterrupted execution, and no call ever ends in an exception that names no directory *)
+Theorem C19_torn_resume_correct : forall md (bs n : nat) fixed,
+  (1 <= bs)%nat -> (1 <= n)%nat -> fixed = true \/ bs = 1%nat ->
+  forall sched, Forall (fun te => entry_ok (te_e te) = true) sched ->
+  let r := script_run_t true md fixed (Z.of_nat bs) n ([], []) sched in
+  completed (fst (fst r)) = ideal md bs n (length (completed (fst (fst r)))) /\
+  (md = Retro -> (length (completed (fst (fst r))) <= n)%nat) /\
+  (forall w, ~ In (GFail w) (snd r)).
+Proof. exact resume_correct_t. Qed.
+Print Assumptions C19_torn_resume_correct.
+
+(* C19_step_safe on worlds with torn markers: one more call from ANY world such a schedule leads to keeps the completed steps,
+   adds at most the next one, launches only the uninterrupted run's command for the first step that is not complete, names
+   only directories that are not complete, never fails without naming one *)
+Theorem C19_torn_step_safe : forall md (bs n : nat) fixed,
+  (1 <= bs)%nat -> (1 <= n)%nat -> fixed = true \/ bs = 1%nat ->
+  forall sched te, Forall (fun te => entry_ok (te_e te) = true) sched -> entry_ok (te_e te) = true ->
+  let tf := fst (script_run_t true md fixed (Z.of_nat bs) n ([], []) sched) in
+  let r := attempt_t true md fixed (Z.of_nat bs) n tf te in
+  exists c,
+    completed (fst tf) = ideal md bs n c /\
+    (completed (fst (fst r)) = ideal md bs n c \/ completed (fst (fst r)) = ideal md bs n (S c)) /\
+    match snd r with
+    | GLaunch s l _ _ => s = step_of bs c /\ l = ideal_launch md bs c /\ ~ In s (map fst (completed (fst tf)))
+    | GNamed _ s => ~ In s (map fst (completed (fst tf)))
+    | GFail _ => False
+    | _ => True
+    end.
+Proof. exact step_safe_t. Qed.
+Print Assumptions C19_torn_step_safe.
+
+(* a torn marker costs one call: a world such a schedule leads to holds at most one torn marker, in the directory of the first
+   step that is not complete, and the next call - whatever its entry - names exactly that directory as "invalid structure";
+   the operator removes it, no torn marker is left, no completed step is lost *)
+Theorem C19_torn_marker_is_named : forall md (bs n : nat) fixed,
+  (1 <= bs)%nat -> (1 <= n)%nat -> fixed = true \/ bs = 1%nat ->
+  forall sched te, Forall (fun te => entry_ok (te_e te) = true) sched ->
+  let tf := fst (script_run_t true md fixed (Z.of_nat bs) n ([], []) sched) in
+  snd tf = [] \/
+  (exists c, snd tf = [step_of bs c] /\ completed (fst tf) = ideal md bs n c /\
+             let r := attempt_t true md fixed (Z.of_nat bs) n tf te in
+             snd r = GNamed 1 (step_of bs c) /\ snd (fst r) = [] /\ completed (fst (fst r)) = ideal md bs n c).
+Proof. exact torn_marker_is_named. Qed.
+Print Assumptions C19_torn_marker_is_named.
+
+(* "rerunning it continues the simulation" on worlds with torn markers (C19_retro_progress / C19_retro_rerun_finishes): after m
+   further calls that are not interrupted at least min n (c + m - 1) steps are complete - the one call that names the torn
+   directory is the call an incomplete directory costs anyway - and no torn marker is left; n - c + 1 such calls end in the
+   never-interrupted run *)
+Theorem C19_torn_retro_progress : forall (bs n : nat) fixed,
+  (1 <= bs)%nat -> (1 <= n)%nat -> fixed = true \/ bs = 1%nat ->
+  forall sched0 es, Forall (fun te => entry_ok (te_e te) = true) sched0 ->
+  Forall (fun e => entry_ok e = true /\ (4 + length (e_order e) <= e_k e)%nat) es ->
+  let tf := fst (script_run_t true Retro fixed (Z.of_nat bs) n ([], []) sched0) in
+  let tf' := fst (script_run_t true Retro fixed (Z.of_nat bs) n tf (map whole es)) in
+  completed (fst tf') = ideal Retro bs n (length (completed (fst tf'))) /\
+  (Nat.min n (length (completed (fst tf)) + length es - 1) <= length (completed (fst tf')) <= n)%nat /\
+  (es <> [] -> snd tf' = []).
+Proof. exact retro_progress_t. Qed.
+Print Assumptions C19_torn_retro_progress.
+
+Theorem C19_torn_retro_rerun_finishes : forall (bs n : nat) fixed,
+  (1 <= bs)%nat -> (1 <= n)%nat -> fixed = true \/ bs = 1%nat ->
+  forall sched0 es, Forall (fun te => entry_ok (te_e te) = true) sched0 ->
+  Forall (fun e => entry_ok e = true /\ (4 + length (e_order e) <= e_k e)%nat) es ->
+  let tf := fst (script_run_t true Retro fixed (Z.of_nat bs) n ([], []) sched0) in
+  (n + 1 <= length (completed (fst tf)) + length es)%nat ->
+  completed (fst (fst (script_run_t true Retro fixed (Z.of_nat bs) n tf (map whole es)))) = crash_free Retro bs n.
+Proof. exact retro_rerun_finishes_t. Qed.
+Print Assumptions C19_torn_retro_rerun_finishes.
+
+(* with the repair an unreadable marker IS a missing marker: on a well-formed world examine answers as the model's examine on
+   the tree component (so the torn directory is named and removed, and the theorems of the atomic model apply to what
+   follows); whatever the world, it answers so or names a directory holding a torn marker, and never raises *)
+Theorem C19_torn_repaired_is_missing_marker : forall fixed bs tf, torn_wf tf ->
+  examine_t true fixed bs tf = tres_of_xres (examine fixed bs (fst tf)).
+Proof. exact examine_t_repaired_is_missing. Qed.
+Print Assumptions C19_torn_repaired_is_missing_marker.
+
+Theorem C19_torn_repaired_names_torn_or_is_examine : forall fixed bs tf,
+  examine_t true fixed bs tf = tres_of_xres (examine fixed bs (fst tf)) \/
+  exists s, examine_t true fixed bs tf = TNamed 1 s /\ is_torn (snd tf) s = true.
+Proof. exact examine_t_repaired_cases. Qed.
+Print Assumptions C19_torn_repaired_names_torn_or_is_examine.
+
+Theorem C19_torn_repaired_never_raises : forall fixed bs tf w, examine_t true fixed bs tf <> TRaised w.
+Proof. exact examine_t_repaired_never_raises. Qed.
+Print Assumptions C19_torn_repaired_never_raises.
+
+(* the witness of the refutation below under the repair: the torn directory is named, the run completes *)
+Example C19_torn_witness_repaired :
+  let r := script_run_t true Retro true 1 3 ([], []) (witness_torn ++ [full_t; full_t; full_t; full_t]) in
+  snd (fst r) = [] /\ completed (fst (fst r)) = crash_free Retro 1 3 /\ nth 2 (snd r) GDone = GNamed 1 (1, 0)%Z.
+Proof. exact torn_witness_repaired. Qed.
+
+(* an interruption in the pipeline's own wrap-up AFTER its last publication (tearing entry with k - 4 = number of files + 1): the
+   step counts as complete, the call does not return (exit status not 0), the rerun goes on with the next step *)
+Example C19_torn_late_death :
+  let r := script_run_t true Retro true 1 3 ([], []) [full_t; mkte (mke 10 canon_order) true; full_t; full_t] in
+  completed (fst (fst r)) = crash_free Retro 1 3 /\ snd (fst r) = [] /\
+  map (call_returns Retro 1) (snd r) = [Some true; None; Some true; Some false].
+Proof. vm_compute. repeat split; reflexivity. Qed.
+
+(* -- the script BEFORE the repair (tfix = false), kept as the witness of what the repair removed -- *)
+
+(* on a well-formed world the old script raises (JSONDecodeError, names nothing) EXACTLY when the first problem examine
    meets is a directory with a torn marker - where a missing marker would have been named "invalid structure" *)
 Theorem C19_torn_examine_raises_iff : forall fixed bs tf w, torn_wf tf ->
   (examine_t false fixed bs tf = TRaised w <->
@@ -892,10 +1062,11 @@ Theorem C19_torn_raise_is_permanent : forall tfix md fixed bs n tf w,
 Proof. exact torn_stuck. Qed.
 Print Assumptions C19_torn_raise_is_permanent.
 
-(* REFUTED: "interrupted during a pipeline run with partially published outputs, rerunning continues the simulation".
-   Retrospective, batch size 1, 3 plates, marker last in every order, the script as /repo has it: the run of step (1,0) is
+(* REFUTED for the script before the repair: "interrupted during a pipeline run with partially published outputs, rerunning
+   continues the simulation".  Retrospective, batch size 1, 3 plates, marker last in every order: the run of step (1,0) is
    interrupted while its last file, the marker, is being published.  From then on EVERY rerun (any number k) fails with the
-   same exception, no directory is ever named, step (1,0) is never completed. *)
+   same exception, no directory is ever named, step (1,0) is never completed.  (C19_torn_resume_correct is the statement this
+   witness contradicts, with tfix = false for true.) *)
 Theorem C19_resume_refuted_torn_marker :
   exists sched,
     Forall (fun te => entry_ok (te_e te) = true) sched /\
@@ -908,23 +1079,7 @@ Theorem C19_resume_refuted_torn_marker :
 Proof. exists witness_torn. exact torn_marker_strands. Qed.
 Print Assumptions C19_resume_refuted_torn_marker.
 
-(* the repair: with `except ValueError: return None` around json.load an unreadable marker IS a missing marker - examine
-   answers as the model's examine on the tree component (so the torn directory is named and removed, and the theorems above
-   apply to what follows), and never raises *)
-Theorem C19_torn_repaired_is_missing_marker : forall fixed bs tf, torn_wf tf ->
-  examine_t true fixed bs tf = tres_of_xres (examine fixed bs (fst tf)).
-Proof. exact examine_t_repaired_is_missing. Qed.
-Print Assumptions C19_torn_repaired_is_missing_marker.
-
-Theorem C19_torn_repaired_never_raises : forall fixed bs tf w, examine_t true fixed bs tf <> TRaised w.
-Proof. exact examine_t_repaired_never_raises. Qed.
-Print Assumptions C19_torn_repaired_never_raises.
-
-(* the witness under the repair: the torn directory is named, the run completes; and the prospective variant of the witness *)
-Example C19_torn_witness_repaired :
-  let r := script_run_t true Retro true 1 3 ([], []) (witness_torn ++ [full_t; full_t; full_t; full_t]) in
-  snd (fst r) = [] /\ completed (fst (fst r)) = crash_free Retro 1 3 /\ nth 2 (snd r) GDone = GNamed 1 (1, 0)%Z.
-Proof. exact torn_witness_repaired. Qed.
+(* the prospective variant of the witness (batch size 2, the marker of (0,1) torn) *)
 Example C19_torn_witness_prospective :
   let r := script_run_t false Prosp true 2 3 ([], []) ([full_t; mkte (mke 7 canon_order) true] ++ repeat full_t 3) in
   snd (fst r) = [(0, 1)%Z] /\ skipn 2 (snd r) = repeat (GFail 70) 3.
